@@ -243,7 +243,10 @@ def run_case(case, ctx):
 
     def seeds(partial):
         mask = [True] * nout
-        if partial and nout > 1:
+        # (interaction of outputs: every output seeded, but only some columns of the matrix-valued ones - e.g. all eigenvalues and
+        # one mode shape)
+        allcols = partial and nout > 1 and rng.random() < 0.4
+        if partial and nout > 1 and not allcols:
             mask = [bool(b) for b in rng.integers(0, 2, nout)]
             if not any(mask):
                 mask[0] = True
@@ -251,7 +254,7 @@ def run_case(case, ctx):
         if partial:
             # matrix-valued seeds with only some columns set (one mode / one load case seeded, the others not)
             for j, w in enumerate(out):
-                if isinstance(w, np.ndarray) and w.ndim == 2 and w.shape[1] > 1 and rng.random() < 0.6:
+                if isinstance(w, np.ndarray) and w.ndim == 2 and w.shape[1] > 1 and (allcols or rng.random() < 0.6):
                     keep = rng.integers(0, 2, w.shape[1]).astype(bool)
                     keep[int(rng.integers(w.shape[1]))] = True
                     w[:, ~keep] = 0
